@@ -248,15 +248,16 @@ void generate(const std::string &prop, Rng &wl, Rng &fl, Case &c)
   if (wl.chance(0.7))
   {
     c.stratum   = sk.faults_on ? "circbuf.faults" : "circbuf.nofaults";
-    int max_size = wl.chance(0.9) ? (int)wl.range(1, 3) : (int)wl.range(4, 6);
-    int nprod    = (int)wl.range(1, 3);
+    bool big     = vsim::tier_scale() > 1 && wl.chance(0.5);
+    int max_size = wl.chance(0.9) ? (int)wl.range(1, 3) : (int)wl.range(4, big ? 8 : 6);
+    int nprod    = (int)wl.range(1, big ? 4 : 3);
     c.set("max_size", max_size);
     c.set("final_drain", wl.chance(0.8));
     for (int p = 0; p < nprod; ++p)
     {
       TaskProg t;
       t.role = R_PROD;
-      int n  = (int)wl.range(1, wl.chance(0.8) ? 4 : 8);
+      int n  = (int)wl.range(1, wl.chance(0.8) ? 4 : (big ? 12 : 8));
       for (int k = 0; k < n; ++k)
       {
         Op op;
@@ -268,7 +269,7 @@ void generate(const std::string &prop, Rng &wl, Rng &fl, Case &c)
     }
     TaskProg cons;
     cons.role = R_CONS;
-    int n     = (int)wl.range(1, 10);
+    int n     = (int)wl.range(1, big ? 16 : 10);
     for (int i = 0; i < n; ++i)
     {
       Op op;
